@@ -765,13 +765,15 @@ namespace bluetoe
                     &response_data_.buffer[ pdu_header_size + pdu_gap ] ) )
                     return false;
 
-                // in the scan request, the randomness is stored in RxAdd, in the scan response, it's stored in
-                // TxAdd.
-                const bool scanner_addres_is_random = response_data_.buffer[ 0 ] & tx_add_mask;
-                if ( !static_cast< bool >( receive_buffer_.buffer[ 0 ] & rx_add_mask ) == scanner_addres_is_random )
+                // the type of the advertisers address is stored in RxAdd of the scan request and in TxAdd of the
+                // scan response.
+                const bool advertiser_address_is_random = response_data_.buffer[ 0 ] & tx_add_mask;
+                if ( !static_cast< bool >( receive_buffer_.buffer[ 0 ] & rx_add_mask ) == advertiser_address_is_random )
                     return false;
 
-                const link_layer::device_address scanner( &receive_buffer_.buffer[ pdu_header_size + pdu_gap ], scanner_addres_is_random );
+                // the type of the scanners address is stored in TxAdd of the scan request
+                const bool scanner_address_is_random = receive_buffer_.buffer[ 0 ] & tx_add_mask;
+                const link_layer::device_address scanner( &receive_buffer_.buffer[ pdu_header_size + pdu_gap ], scanner_address_is_random );
 
                 return static_cast< const CallBacks* >( this )->is_scan_request_in_filter( scanner );
             }
